@@ -27,9 +27,27 @@ type DetachScenario struct {
 	Profile string // fast slow stall stop
 	StallAt int
 	Unsub   string // "" "random" (only with End "")
+	Park    bool   // tochannelsync: the subscribing goroutine is held for 5 ms right before it hands the channel to the observer
+}
+
+// handoutPark: goroutines that must be held at the hook point "operator_sink:ToChannel:handout" (schedule replay of the hand-out race)
+var handoutPark sync.Map
+
+// DetachHook is installed as the library's verification hook by drive-detach.
+func DetachHook(point string, obj any) {
+	if point == "operator_sink:ToChannel:handout" {
+		if _, ok := handoutPark.Load(rec.Gid()); ok {
+			time.Sleep(5 * time.Millisecond)
+		}
+	}
 }
 
 func GenDetach(r *rand.Rand) DetachScenario {
+	if r.Intn(8) == 0 {
+		// ToChannel over a SYNCHRONOUS source (it has ended before the channel is handed out unless the subscribing goroutine is quick)
+		n := r.Intn(4)
+		return DetachScenario{Op: "tochannelsync", N: n, Cap: n + 1 + r.Intn(2), End: []string{"C", "E"}[r.Intn(2)], Profile: "fast", Park: r.Intn(2) == 0}
+	}
 	ops := []string{"observeon", "subscribeon", "tochannel", "fromchannel"}
 	sc := DetachScenario{Op: ops[r.Intn(4)], N: r.Intn(13), End: []string{"C", "C", "E", ""}[r.Intn(4)], Profile: []string{"fast", "slow", "stall", "stall", "stop"}[r.Intn(5)]}
 	switch sc.Op {
@@ -61,7 +79,76 @@ func GenDetach(r *rand.Rand) DetachScenario {
 	return sc
 }
 
+// runToChannelSync: ToChannel over a synchronous source; the observer must get the channel (once) and read the N values, the terminal
+// and the close from it - also when the subscribing goroutine is slow to hand the channel out.
+func runToChannelSync(lg *rec.Log, sc DetachScenario) []rec.Ev {
+	lg.Add(rec.Ev{E: "hdr", S: sc.Op, V: sc.Cap, I: sc.N, K: sc.End})
+	base := context.WithValue(context.Background(), rec.KeySub, true)
+	src := ro.NewUnsafeObservableWithContext(func(ctx context.Context, d ro.Observer[any]) ro.Teardown {
+		for i := 1; i <= sc.N; i++ {
+			d.NextWithContext(ctx, any(i))
+		}
+		if sc.End == "E" {
+			d.ErrorWithContext(ctx, errCause[1])
+		} else {
+			d.CompleteWithContext(ctx)
+		}
+		return nil
+	})
+	got := make(chan (<-chan ro.Notification[any]), 1)
+	done := make(chan struct{})
+	go func() {
+		defer close(done)
+		select {
+		case c := <-got:
+			for n := range c {
+				switch n.Kind {
+				case ro.KindNext:
+					lg.Add(rec.Ev{E: "consB", K: "N", V: n.Value.(int), B: true})
+				case ro.KindError:
+					lg.Add(rec.Ev{E: "consB", K: "E", B: true})
+				default:
+					lg.Add(rec.Ev{E: "consB", K: "C", B: true})
+				}
+				lg.Add(rec.Ev{E: "consE"})
+			}
+			lg.Add(rec.Ev{E: "closeSeen"})
+		case <-time.After(300 * time.Millisecond):
+		}
+	}()
+	subDone := make(chan ro.Subscription, 1)
+	go func() {
+		if sc.Park {
+			handoutPark.Store(rec.Gid(), true)
+			defer handoutPark.Delete(rec.Gid())
+		}
+		subDone <- ro.ToChannel[any](sc.Cap)(src).SubscribeWithContext(base, ro.NewObserverWithContext(
+			func(ctx context.Context, c <-chan ro.Notification[any]) {
+				lg.Add(rec.Ev{E: "handout", B: ctx != nil && ctx.Value(rec.KeySub) != nil})
+				got <- c
+			},
+			func(ctx context.Context, err error) {},
+			func(ctx context.Context) {},
+		))
+	}()
+	var sub ro.Subscription
+	select {
+	case sub = <-subDone:
+	case <-time.After(3 * time.Second):
+		lg.Add(rec.Ev{E: "hang", S: "subscribe"})
+	}
+	<-done
+	if sub != nil {
+		sub.Unsubscribe()
+	}
+	lg.Add(rec.Ev{E: "end"})
+	return lg.Events()
+}
+
 func RunDetach(lg *rec.Log, sc DetachScenario, seed int64) []rec.Ev {
+	if sc.Op == "tochannelsync" {
+		return runToChannelSync(lg, sc)
+	}
 	lg.Add(rec.Ev{E: "hdr", S: sc.Op, V: sc.Cap, I: sc.N})
 	r := rand.New(rand.NewSource(seed))
 	base := context.WithValue(context.Background(), rec.KeySub, true)
